@@ -8,7 +8,10 @@
 //   deleteValues | values(none)
 //   unit("mV" | " m V " | "kHz" | "" | none) | uncertainty(x | none) | definition(s | none)
 //   REOPEN               close the file and open it again (ReadWrite)
-// is replayed on a fresh file.  The reference model is (creation type, last assigned typed sequence, unit, uncertainty,
+// is replayed on a fresh file.  Part A: all sequences up to depth D (3 quick, 4 thorough) over the core alphabet (19 letters);
+// part B: all sequences up to depth D-1 that contain at least one letter of the extended alphabet (a second wrong-type vector,
+// a second mixed vector, a vector of an empty Variant, uncertainty(-0.0), a long UTF-8 definition) over core + extended letters.
+// A failing trace is not extended.  The reference model is (creation type, last assigned typed sequence, unit, uncertainty,
 // definition), kept in a representation of its own (type tag + 64 bit pattern + bytes; not nix::Variant).  After the last
 // step of every sequence (every prefix is a sequence of its own) values() (type and bits of each Variant), valueCount(),
 // dataType(), unit(), uncertainty() and definition() are compared with the model
@@ -16,7 +19,9 @@
 //   - through a handle fetched afresh with section.getProperty(name),
 //   - after close + reopen ReadOnly.
 // Steps at even positions are applied through the kept handle, at odd positions through a freshly fetched one.
-// Rejected operations must throw and leave every observable of the property bitwise unchanged.
+// Rejected operations must throw and leave every observable of the property bitwise unchanged; createProperty(name, mixed
+// vector) must throw and leave no property behind (also after reopen).
+// Violation signatures: C14|<getter or operation>|<value type, class of the expected value>|<assertion (where observed)>|<deviation>.
 // Decisions (DESIGN 5 / C14): the value list of a property created with a DataType is unspecified until the first
 // assignment or clear; unit(s) stores s without blanks; unit("") either throws (and changes nothing) or removes the unit.
 #include <nix.hpp>
@@ -325,7 +330,9 @@ struct Runner {
         auto V = [&](const std::string &assertion, const std::string &input, const std::string &dev, const std::string &what) {
             bad++;
             std::string getter = assertion.substr(0, assertion.find(' '));
-            vf::violation("C14|" + getter + "|" + tname(dt) + (input.empty() ? "" : ", " + input) + "|" + assertion + " (" + via + ")|" + dev, trace + ": " + what + " [" + via + ", after " + lastcls + "]");
+            // unit, uncertainty and definition do not depend on the value type: the type is not part of their class
+            const bool typed = getter == "values()" || getter == "valueCount()" || getter == "dataType()";
+            vf::violation("C14|" + getter + "|" + (typed ? tname(dt) + (input.empty() ? "" : ", " + input) : std::string("any value type")) + "|" + assertion + " (" + via + ")|" + dev, trace + ": " + what + " [" + via + ", after " + lastcls + "]");
         };
         CNT("observations");
         // dataType
@@ -472,6 +479,7 @@ struct Runner {
                 }
             }
         }
+        if (bad) return bail();      // the consequences of a step that already failed are not reported on top of it
         // ---- the observations after the last step ----
         bad += compare(observe(K), m, lastcls, "kept handle", trace);
         Property F;
